@@ -66,6 +66,11 @@ def same(a, b, _d=0):  # noqa: C901
         )
     if hasattr(a, "__tlmc_fields__"):
         return all(same(getattr(a, f, _MISSING), getattr(b, f, _MISSING), d) for f in a.__tlmc_fields__)
+    try:
+        if a != a and b != b:  # NaN-like values (Decimal('NaN')): reflexive
+            return True
+    except Exception:  # noqa: BLE001 - signalling NaNs raise on comparison
+        return repr(a) == repr(b)
     return a == b
 
 
